@@ -100,7 +100,7 @@ CLAIMED["C07"] = (
 
 CLAIMED["C16"] = (
     "interval-domain abstract interpretation (sa/ranges.py: + - * / fmod, arctan2(sin,cos) wrap, if-refinement, syntactic inlining of callees and property getters) of AngleInterval.contains/__contains__ under the class invariant, plus canonicalised structural rules on Interval predicates, arithmetic and setters",
-    "Proves, for all admissible intervals (start,end in [-2pi,2pi], 0 <= end-start < 2pi) and all real query values, that no assert in the containment code can fail, that the compared offset and the bound both range over [0, 2pi) (so the test is a modulo-2pi offset against the true length, not a difference wrapped to [-pi,pi]) with a non-strict comparison; decides closedness and operand pairing of Interval.contains/overlaps/intersection, the end swap of * and / exactly in the non-positive branch, construction of every arithmetic result through the checking constructor, and rejection of start > end. Floating-point rounding at the end points is not decided.",
+    "Proves, for all admissible intervals (start,end in [-2pi,2pi], 0 <= end-start < 2pi) and all real query values, that no assert in the containment code can fail, that the compared offset and the bound both range over [0, 2pi) (so the test is a modulo-2pi offset against the true length, not a difference wrapped to [-pi,pi]) with a non-strict comparison; decides closedness and operand pairing of Interval.contains/overlaps/intersection, the end swap of * and / exactly in the non-positive branch (decided on construction outcomes: sign of the factor to the pair handed to the constructor, through per-branch returns, locals, unpacking and conditional expressions), that AngleInterval.contains(interval) compares start offset + argument length with the own length (linear forms), construction of every arithmetic result through the checking constructor, and rejection of start > end. Floating-point rounding at the end points is not decided.",
     "Trusts the transfer functions of the interpreter (math.fmod sign/magnitude, arctan2(sin x, cos x) in [-pi, pi]) and that AngleInterval's constructor establishes the invariant (checked structurally under REJECT).",
     "DESIGN.md §2 E-RANGE, §3 C16",
 )
@@ -119,10 +119,10 @@ CLAIMED["C15"] = (
 )
 
 CLAIMED["C13"] = (
-    "constant-table agreement: the id regex is parsed from its source constant with re._parser and compared piecewise (group order, separator literals, character classes) with the printer's AST and the parser's group reads / conversions / constructor argument order (reaching definitions); solution-id format string vs reader split/strip/slicing and enum tables",
-    "Decides that ScenarioID.__str__ emits the components in the grammar's order with the grammar's separators, prefix and alphabets; that from_benchmark_id reads every named group, converts numeric ones with int, unwraps single prediction ids and passes each to the constructor parameter of the same meaning with fullmatch; that the solution id has as many ':'-separated segments, in the same order, as the reader expects, list form and brackets agree, the scenario-id alphabet is disjoint from the meta characters, vehicle id = model name + single-digit type value matches the [:-1]/[-1] slicing and accepted lengths, cost id = enum name. Value-level ambiguities (a one-element prediction list prints like a scalar) are not decided.",
-    "Trusts re._parser's reading of the pattern and iso3166 for country codes.",
-    "DESIGN.md §2 E-TABLE, §3 C13",
+    "abstract interpretation in a string-template domain (sa/strdom.py): ScenarioID.__str__, from_benchmark_id, Solution.benchmark_id and the solution reader are evaluated over the AST on objects whose unbounded fields are indivisible atoms carrying their character-class language, one evaluation per shape case of a valid id; the id grammar is the regex parse tree (re._parser) of the source constant, matched structurally against the printed template to obtain what each named group captures; enum members are folded as constants; nothing of the repository is imported or executed and no solver is used",
+    "Decides, for every shape case of a valid scenario id (cooperative or not; map / configuration / one, two, three prediction ids) that the template __str__ prints conforms to benchmark_id_pattern with every named group capturing the field of the same meaning (separators, order, prefix, optional parts, alphabets: behaviour letters from the constructor's validator, map-name alphabet by folding the setter over the printable characters); that from_benchmark_id evaluated on that template with fullmatch constructs a ScenarioID whose every constructor argument equals the field printed (numbers as numbers, one prediction id as a scalar, several as a list, flag, version); and, for one, two and three planning-problem solutions over all vehicle model x type pairs and all cost functions, that _parse_solution evaluated on Solution.benchmark_id builds the i-th PlanningProblemSolution with the i-th model, type, cost function and trajectory node and hands scenario id and version unchanged to the scenario-id parser. Any operation that cuts through an atom yields a fragment that equals nothing; any test not decidable from the shape makes the check refuse (exit 2). Not decided: a list holding a single prediction id (prints like a scalar); the constructor body is not evaluated (parser arguments are compared with fields).",
+    "Trusts re._parser's reading of the pattern; assumes country ids are three upper-case letters (ISO-3166 data is external) and numbers positive, as the property states.",
+    "DESIGN.md §3 C13 (revised), §9",
 )
 CLAIMED["C14"] = (
     "constant-table agreement (ast.literal_eval of the enum tables) against each other, the dataclass fields of the reader's class table and the parsed solution XSD; formatter classification of the writer's text expressions",
